@@ -142,7 +142,7 @@ def main():
             na.append({'property_id': p, 'reason': PENDING})
     m = {
         'version': 1,
-        'setup_cmd': 'cd /verif/driver && CARGO_NET_OFFLINE=true cargo +nightly build --release --offline && cd /verif/witness && cp /repo/Cargo.lock Cargo.lock && CARGO_NET_OFFLINE=true cargo +nightly test --doc --offline --no-run',
+        'setup_cmd': 'cd /verif/driver && CARGO_NET_OFFLINE=true cargo +nightly build --release --offline && cd /verif/witness && cp /repo/Cargo.lock Cargo.lock && CARGO_NET_OFFLINE=true cargo +nightly build --offline',
         'hooks': {
             'guard': 'asefile_verif',
             'enable': 'no hooks: the driver reads the unmodified crate under the real cargo check build',
